@@ -28,7 +28,7 @@ use self::slot_state::{IgnoreReason, SlotState};
 use super::{Cert, ValidatedCert, ValidatedVote, ValidatorEpochInfo, Vote};
 use crate::consensus::cert::NotarCert;
 use crate::consensus::pool::finality_tracker::FinalizationEvent;
-use crate::crypto::merkle::BlockHash;
+use crate::crypto::merkle::{BlockHash, GENESIS_BLOCK_HASH};
 use crate::types::SLOTS_PER_EPOCH;
 use crate::{BlockId, Slot, ValidatorIndex};
 
@@ -598,8 +598,15 @@ impl Pool for PoolImpl {
         }
 
         self.slot_state(*slot).notify_parent_known(block_hash);
-        if let Some(parent_state) = self.slot_states.get(parent_slot)
-            && parent_state.is_notar_fallback_or_stronger(parent_hash)
+        // NOTE: Genesis never gets a certificate. As in the finality and parent-ready trackers,
+        // it counts as notarized. Otherwise, no block built on genesis could ever become
+        // safe-to-notar and a split vote on such a block could never be resolved.
+        let parent_certified = parent_id == (Slot::genesis(), GENESIS_BLOCK_HASH)
+            || self
+                .slot_states
+                .get(parent_slot)
+                .is_some_and(|state| state.is_notar_fallback_or_stronger(parent_hash));
+        if parent_certified
             && let Some(output) = self
                 .slot_state(*slot)
                 .notify_parent_certified(block_hash.clone())
